@@ -46,7 +46,28 @@ static int cb_done(const uscxml_ctx *c, const uscxml_state *s, const uscxml_elem
   done_set[idx >> 3] |= (unsigned char)(1u << (idx & 7));
   return 0;
 }
-static int cb_log(const uscxml_ctx *c, const char *l, const char *e) { return 0; }
+static unsigned char xl[USCXML_MAX_NR_STATES_BYTES + 8], el[USCXML_MAX_NR_STATES_BYTES + 8], tl[USCXML_MAX_NR_TRANS_BYTES + 8];
+static const char *log_bad;
+static int log_phase, log_last;
+/* ORDER_LOG convention: X<nn> / E<nn> / T<kk> (see engines/genc/harness_doc.c) */
+static int cb_log(const uscxml_ctx *c, const char *l, const char *e) {
+#if D_ORDER_LOG
+  if (e && (e[0] == 'X' || e[0] == 'E' || e[0] == 'T') && e[1] && e[2]) {
+    int n = (e[1] - '0') * 10 + (e[2] - '0');
+    if (e[0] == 'T') {
+      for (int u = 0; u < D_T; u++) if (d_tlognum[u] == n) { if (sp_bit(tl, u)) log_bad = "transition content ran twice"; sp_set(tl, u); }
+      if (log_phase > 2) log_bad = "transition content ran after a state was entered";
+      log_phase = 2;
+      return 0;
+    }
+    for (int j = 1; j < D_N; j++) if (d_lognum[j] == n) { unsigned char *s = e[0] == 'X' ? xl : el; if (sp_bit(s, j)) log_bad = "a state handler ran twice"; sp_set(s, j); }
+    if (e[0] == 'X') { if (log_phase > 1) log_bad = "a state was exited after transition content / an entry"; else if (log_phase == 1 && n >= log_last) log_bad = "states not exited in reverse document order"; log_phase = 1; }
+    else { if (log_phase == 3 && n <= log_last) log_bad = "states not entered in document order"; log_phase = 3; }
+    log_last = n;
+  }
+#endif
+  return 0;
+}
 static int cb_raise(const uscxml_ctx *c, const char *e) { return 0; }
 static int cb_send(const uscxml_ctx *c, const uscxml_elem_send *s) { return 0; }
 static int cb_fe(const uscxml_ctx *c, const uscxml_elem_foreach *f) { return USCXML_ERR_FOREACH_DONE; }
@@ -100,7 +121,7 @@ static const char *post_clauses(const uscxml_ctx *pre, const uscxml_ctx *c, int 
     }
   if (!skiphist && r == USCXML_ERR_OK && !(pre->flags & (USCXML_CTX_FINISHED | USCXML_CTX_TOP_LEVEL_FINAL))) {
     /* the step function against the spec function of one microstep (spec_step.h) */
-    int sel[D_T + 1]; unsigned char exp[USCXML_MAX_NR_STATES_BYTES + 8];
+    int sel[D_T + 1]; unsigned char exp[USCXML_MAX_NR_STATES_BYTES + 8], xs[USCXML_MAX_NR_STATES_BYTES + 8], es[USCXML_MAX_NR_STATES_BYTES + 8];
     int pristine = pre->flags == USCXML_CTX_PRISTINE, any = pristine;
     for (int t = 0; t <= D_T; t++) sel[t] = 0;
     if (!pristine) {
@@ -108,7 +129,7 @@ static const char *post_clauses(const uscxml_ctx *pre, const uscxml_ctx *c, int 
       for (int t = 0; t < D_T; t++) if (sel[t]) any = 1;
     }
     if (!any) return "the step returned OK although the optimal enabled transition set is empty";
-    sps_config(pre->config, pre->history, sel, pristine, exp);
+    sps_config(pre->config, pre->history, sel, pristine, exp, xs, es);
     for (int k = 0; k < USCXML_MAX_NR_STATES_BYTES; k++)
       if (exp[k] != c->config[k]) {
         static char msg[600]; int n = snprintf(msg, sizeof msg, "configuration differs from the microstep algorithm of the Recommendation, which yields {");
@@ -116,6 +137,15 @@ static const char *post_clauses(const uscxml_ctx *pre, const uscxml_ctx *c, int 
         snprintf(msg + n, sizeof msg - n, " }");
         return msg;
       }
+#if D_ORDER_LOG
+    if (log_bad) return log_bad;
+    for (int i = 1; i < D_N; i++) {
+      if (d_lognum[i] < 0) continue;
+      if (sp_bit(xl, i) != sp_bit(xs, i)) return "onexit content did not run exactly for the states of the exit set";
+      if (sp_bit(el, i) != sp_bit(es, i)) return "onentry content did not run exactly for the entered states";
+    }
+    for (int t = 0; t < D_T; t++) if (d_tlognum[t] >= 0 && sp_bit(tl, t) != sel[t]) return "transition content did not run exactly for the selected transitions";
+#endif
   }
   if (r == USCXML_ERR_OK && legal_config(c->config))
     for (int f = 1; f < D_N; f++) {
@@ -138,7 +168,7 @@ int main(int argc, char **argv) {
     int pre_ok = (pre.flags == 0) || ((pre.flags & USCXML_CTX_INITIALIZED) && !(pre.flags & USCXML_CTX_TRANSITION_FOUND) && ok_state(&pre));
     printf("pre-state flags=%d ", pre.flags); show("config", pre.config); printf(" "); show("history", pre.history); printf(" legal=%d\n", pre_ok);
     for (answers = 0; answers < (1ULL << nbits); answers++) {
-      uscxml_ctx c = pre; apos = 0; done_bad = 0; memset(done_set, 0, sizeof done_set); new_pass();
+      uscxml_ctx c = pre; apos = 0; done_bad = 0; memset(done_set, 0, sizeof done_set); new_pass(); memset(xl, 0, sizeof xl); memset(el, 0, sizeof el); memset(tl, 0, sizeof tl); log_bad = 0; log_phase = 0; log_last = 0;
       int r = uscxml_step(&c);
       const char *why = post_clauses(&pre, &c, r, pre_ok);
       if (why) { printf("REPRODUCED answers=0x%llx ret=%d: %s; ", answers, r, why); show("config", c.config); printf(" "); show("history", c.history); printf("\n"); return 1; }
